@@ -102,7 +102,7 @@ pub enum Act {
     DropNode { hid: Hid },
     DropVar { vid: usize },
     Memoize { m: usize, src: Hid },
-    MemoCall { m: usize, key: i64, hid: Hid, fresh: bool },
+    MemoCall { m: usize, key: i64, hid: Hid, fresh: bool, prev_alive: Option<Hid> },
     DropMemo { m: usize },
     IsStable { res: bool },
     SetMaxHeight { n: usize },
